@@ -15,6 +15,9 @@ fn run(args: vcore::Args) -> i32 {
             let m = rdfstore::model_from_config(&case["config"]);
             return vcheck::replay_report("C13", vcore::seq_replay_case(&m, &case, rdfstore::parse_ev));
         }
+        if case["engine"] == "ENUM/sparql" {
+            return vcheck::replay_report("C13", vcheck::sparql::replay_case(&case));
+        }
         vcore::machinery_failure("unknown engine in replay case");
     }
     let mut rep = Report::new("C13", tier, "model_checking");
@@ -39,6 +42,10 @@ fn run(args: vcore::Args) -> i32 {
         }
     }
     rep.set("store_layers", json!(layers));
+    // SPARQL layer (engine ENUM): all 64 subsets of the universe x the core-grammar query family
+    let t0 = rep.elapsed_s();
+    vcheck::sparql::run_layer(&mut rep, tier == Tier::Thorough);
+    eprintln!("sparql layer: {:.1}s", rep.elapsed_s() - t0);
     rep.traces_validated = rep.transitions;
     rep.finish()
 }
